@@ -1,4 +1,5 @@
 import PwVerif.Lemmas.PoolQ
+import PwVerif.Lemmas.PoolF
 /-!
 # C07 — Pool.run yields exactly one result per input under every schedule and death
 
@@ -9,12 +10,11 @@ Quantifiers: any number of workers, any input list, any `worker_extra_pending_in
 function for the idle worker, any pre-run deaths, and **every** sequence of adversary events
 (worker answers / dies with or without end marker / the pool reads ready queues in any batches).
 
-Configurations: the *safety* clauses (`C07_exact`, `C07_no_internal_error`, `C07_conservation`,
-`C07_fifo_agreement`) are proved for `Retrying`: retry on, results returned and **any** user `enqueue_fn`
-(an arbitrary refusal function `c.refuse`; an accepting `enqueue_fn` is assumed to enqueue to the worker it
-was given, like `worker.enqueue`). The *liveness* clauses (termination, no deadlock, never an internal error
-from the re-dispatch loop) are proved for `Plain` = `Retrying` + no `enqueue_fn`: with a refusing function
-the re-dispatch loop of `handle_death` can spin for ever - known finding, `C07_livelock_witness`.
+Configuration of **all** theorems: `Retrying` = retry on, results returned and **any** user `enqueue_fn` (an
+arbitrary refusal function `c.refuse`; an accepting `enqueue_fn` is assumed to enqueue to the worker it was given,
+like `worker.enqueue`). Before the repair of the refusal livelock in `handle_death` (a refused input was re-offered
+to the same idle worker for ever) the liveness clauses needed "no `enqueue_fn`"; the old witness is kept below as
+`C07_refusal_witness_after_fix`.
 -/
 namespace PwVerif.C07
 open PwVerif.Pool
@@ -100,21 +100,21 @@ theorem C07_fifo_agreement (c : Cfg) (hc : Retrying c) (pick : List Nat → Opti
       x.ppw = resIn x.chan ++ x.inbox ++ x.lost :=
   fun x hx => ((inv_runEvents hc hp evs _ (inv_start hc hp n src pre)).ws x hx).open_
 
-/-- **C07 the re-dispatch loop always terminates.** In no schedule does `handle_death`'s `while self._retries`
-    loop run out of the fuel `number of workers + 1`: every round hands the head of the retry list to an idle
-    worker or declares that worker dead, so the number of idle workers is a variant (`settle_post`).
-    (With a refusing user `enqueue_fn` this is false: `C07_livelock_witness`.) -/
-theorem C07_redispatch_terminates (c : Cfg) (hc : Plain c) (pick : List Nat → Option Nat) (hp : PickOK pick)
-    (ht : PickTotal pick) (n : Nat) (src : List Inp) (pre evs : List Ev) :
+/-- **C07 the re-dispatch loop always terminates**, whatever the user `enqueue_fn` refuses. In no schedule does
+    `handle_death`'s `while self._retries` loop run out of the fuel `(number of workers + 1)^2`: every round hands the
+    head of the retry list to an idle worker, or is refused by it (the worker is then skipped for the rest of the round),
+    or declares that worker dead - `Lemmas/PoolF.lean`, variant (workers not closed, idle workers not skipped). -/
+theorem C07_redispatch_terminates (c : Cfg) (hc : Retrying c) (pick : List Nat → Option Nat) (hp : PickOK pick)
+    (n : Nat) (src : List Inp) (pre evs : List Ev) :
     (runEvents c pick (start c pick n src pre) evs).err ≠ some .outOfFuel :=
-  fuelOK_runEvents hc hp ht evs _ (fuelOK_start hc hp ht n src pre)
+  fuelOK_runEvents' hc hp evs _ (fuelOK_start' hc hp n src pre)
 
 /-- **C07 never an internal error**: the run can only be waiting, return, or raise PoolError. -/
-theorem C07_never_internal (c : Cfg) (hc : Plain c) (pick : List Nat → Option Nat) (hp : PickOK pick)
-    (ht : PickTotal pick) (n : Nat) (src : List Inp) (pre evs : List Ev) (e : Err) :
+theorem C07_never_internal (c : Cfg) (hc : Retrying c) (pick : List Nat → Option Nat) (hp : PickOK pick)
+    (n : Nat) (src : List Inp) (pre evs : List Ev) (e : Err) :
     outcome (runEvents c pick (start c pick n src pre) evs) ≠ .internal e := by
   have h1 := C07_no_internal_error c hc pick hp n src pre evs
-  have h2 := C07_redispatch_terminates c hc pick hp ht n src pre evs
+  have h2 := C07_redispatch_terminates c hc pick hp n src pre evs
   generalize runEvents c pick (start c pick n src pre) evs = s at h1 h2
   unfold outcome
   cases he : s.err with
@@ -129,7 +129,7 @@ theorem C07_never_internal (c : Cfg) (hc : Plain c) (pick : List Nat → Option 
     reading a batch of queues) leaves the lexicographic measure (workers not yet closed, potential) unchanged
     or smaller, and every *effective* event - a live worker with an input answers, a live worker dies, the
     pool reads a batch whose first queue is ready while the loop is running - makes it strictly smaller. -/
-theorem C07_progress (c : Cfg) (hc : Plain c) (pick : List Nat → Option Nat) (hp : PickOK pick) (s : St) (ev : Ev) :
+theorem C07_progress (c : Cfg) (hc : Retrying c) (pick : List Nat → Option Nat) (hp : PickOK pick) (s : St) (ev : Ev) :
     Dec s (step c pick s ev) ∧ (effective s ev = true → SDec s (step c pick s ev)) :=
   step_measure hc hp s ev
 
@@ -142,7 +142,7 @@ theorem runEvents_snoc (c : Cfg) (pick : List Nat → Option Nat) (s : St) (l : 
 /-- **C07 terminates.** No schedule - from any state, in particular from the start of any run - contains
     infinitely many effective events: provided every worker eventually answers or dies and the pool reads
     what is ready, `Pool.run` comes to an end. (`evs i` is the i-th event of an infinite schedule.) -/
-theorem C07_terminates (c : Cfg) (hc : Plain c) (pick : List Nat → Option Nat) (hp : PickOK pick) (s0 : St)
+theorem C07_terminates (c : Cfg) (hc : Retrying c) (pick : List Nat → Option Nat) (hp : PickOK pick) (s0 : St)
     (evs : Nat → Ev) :
     ¬ ∀ i, effective (runEvents c pick s0 ((List.range i).map evs)) (evs i) = true := by
   intro h
@@ -156,16 +156,16 @@ theorem C07_terminates (c : Cfg) (hc : Plain c) (pick : List Nat → Option Nat)
     it has not answered yet, or some registered result queue holds a message or has reached EOF - so the next
     `mp.connection.wait` returns. Together with `C07_terminates`: every fair schedule ends, by a normal return
     or by `PoolError` (`C07_never_internal`). -/
-theorem C07_no_deadlock (c : Cfg) (hc : Plain c) (pick : List Nat → Option Nat) (hp : PickOK pick) (ht : PickTotal pick)
+theorem C07_no_deadlock (c : Cfg) (hc : Retrying c) (pick : List Nat → Option Nat) (hp : PickOK pick)
     (n : Nat) (src : List Inp) (pre evs : List Ev)
     (hrun : outcome (runEvents c pick (start c pick n src pre) evs) = .waiting) :
     ∃ w, effective (runEvents c pick (start c pick n src pre) evs) (.work w) = true ∨
          effective (runEvents c pick (start c pick n src pre) evs) (.poll [w]) = true := by
-  have hinv := inv_runEvents hc.toRetrying hp evs _ (inv_start hc.toRetrying hp n src pre)
+  have hinv := inv_runEvents hc hp evs _ (inv_start hc hp n src pre)
   have hq : QInv (runEvents c pick (start c pick n src pre) evs) :=
     qinv_runEvents hc (pick := pick) evs _ (qinv_start hc (pick := pick) n src pre)
   have h1 := C07_no_internal_error c hc pick hp n src pre evs
-  have h2 := C07_redispatch_terminates c hc pick hp ht n src pre evs
+  have h2 := C07_redispatch_terminates c hc pick hp n src pre evs
   generalize runEvents c pick (start c pick n src pre) evs = s at hrun hinv hq h1 h2
   have herr : s.err = none := by
     cases he : s.err with
@@ -189,11 +189,12 @@ theorem pickFirst_ok : PickOK pickFirst := by
   | nil => simp [pickFirst] at h
   | cons a as => simp [pickFirst] at h; subst h; simp
 
-/-- the `enqueue_fn` livelock (known finding): W0 dies holding input 1, the idle W1 refuses it -/
-theorem C07_livelock_witness :
+/-- the schedule that made `Pool.run` spin for ever before the repair (W0 dies holding input 1, the idle W1 refuses
+    it): the re-dispatch loop now gives up on W1 and the run ends with `PoolError` -/
+theorem C07_refusal_witness_after_fix :
     outcome (runEvents { refuse := fun w i => w == 1 && i == 1 } pickFirst
       (start { refuse := fun w i => w == 1 && i == 1 } pickFirst 2 [1]) [.die 0 true, .poll [0]])
-    = .internal .outOfFuel := by decide +kernel
+    = .poolError [] := by decide +kernel
 
 /-- non-vacuity of the `enqueue_fn` configuration: worker 1 refuses input 2, which is kept on the retry list
     and later handed to worker 0; every input is returned once -/
